@@ -102,52 +102,100 @@ def rule_invariant(ctx, repo):
     r = F.method(repo, "NumParam", "restore", PARAM)
     ctx.check(Q.has("self.v[:] = self.vin", r.fn), "C11.invariant", "NumParam.restore", "v[:] = vin", "restore no longer copies vin into v", r.W())
 
-    # Model.alter: symbolic update on both branches
+    # Model.alter, decided by evaluation (engine/tinyexec.py) over the three kinds of altered object -- a parameter with stored input,
+    # a parameter before set-up (vin None), an object without `vin` -- with a symbolic value and coefficient; `set` is a recorder
+    from engine.tinyexec import TinyExec, Fake
+    from engine.ordertype import Unsupported
     a = F.method(repo, "Model", "alter", MODEL)
-    fn = a.fn
     value, k = sp.symbols("value k", positive=True)
-    t = [tn for tn in a.g.nodes() if a.g.data(tn)["kind"] == "test" and Q.match("attr == 'vin'", a.g.data(tn)["ast"].test)]
-    if not t:
-        raise AnalysisError("Model.alter: `attr == 'vin'` branch vanished")
-    for lab, name in (("true", "attr='vin' (value given in system base)"), ("false", "attr='v' (value given in input base)")):
-        state = {}
-        for n in sorted(a.g.nodes()):
-            d = a.g.data(n)
-            if d["kind"] != "stmt" or not a.g.guarded_by(n, t[0], lab):
-                continue
-            m = Q.match("self.set(src, idx, $attr, $val)", d["ast"]) or Q.match("self.set(src, idx, $attr, value=$val)", d["ast"])
-            if m:
-                try:
-                    at = ast.literal_eval(m["attr"])
-                    state[at] = to_sympy(m["val"], {"value": value, "instance.pu_coeff[uid]": k},
-                                         funcs={})
-                except Exception:
-                    try:
-                        vv = m["val"]
-                        # instance.pu_coeff[uid] appears as a Subscript: rewrite manually
-                        txt = src(vv).replace("instance.pu_coeff[uid]", "K__")
-                        state[at] = to_sympy(ast.parse(txt, mode="eval").body, {"value": value, "K__": k})
-                    except Exception as ex:
-                        state = None
-                        ctx.undecided("C11.invariant", "Model.alter/%s" % lab, "front-end: %r" % ex, a.W())
-                        break
-        if state is None:
+
+    class _Inst(Fake):
+        pass
+
+    def run_alter(kind, attr):
+        inst = _Inst()
+        if kind == "stored":
+            inst.vin, inst.pu_coeff = [sp.Symbol("vin0")], [k]
+        elif kind == "before-setup":
+            inst.vin, inst.pu_coeff = None, [k]
+        inst.v = [sp.Symbol("v0")]
+        rec = []
+
+        class _Model(Fake):
+            class_name = "M"
+        m = _Model()
+        m.__dict__["p"] = inst
+
+        def _set(src_, idx_, attr="v", value=None):
+            rec.append((src_, idx_, attr, value))
+            return True
+        stubs = {"self.set": _set, "self.idx2uid": lambda i: 0, "logger.warning": lambda *a_, **k_: None,
+                 "logger.debug": lambda *a_, **k_: None, "logger.info": lambda *a_, **k_: None}
+        TinyExec(repo, "Model", MODEL, stubs=stubs).call("alter", m, "p", 7, value, attr)
+        return rec
+
+    for attr, construct, name in (("vin", "vin-branch", "attr='vin' (value given in system base)"), ("v", "v-branch", "attr='v' (value given in input base)")):
+        try:
+            rec = run_alter("stored", attr)
+        except Unsupported as ex:
+            ctx.undecided("C11.invariant", "Model.alter/%s" % construct, "evaluator: %s" % ex, a.W())
             continue
-        ok = "v" in state and "vin" in state and sp.simplify(state["v"] - state["vin"] * k) == 0
-        # the value supplied by the caller lands in the representation it was given in
-        given = "vin" if lab == "false" else "v"
+        state = {at: val for (_s, _i, at, val) in rec}
+        addr_ok = all(_s == "p" and _i == 7 for (_s, _i, _a, _v) in rec)
+        ok = addr_ok and "v" in state and "vin" in state and sp.simplify(state["v"] - state["vin"] * k) == 0
+        given = "vin" if attr == "v" else "v"
         ok = ok and sp.simplify(state.get(given, 0) - value) == 0
-        ctx.check(ok, "C11.invariant", "Model.alter/%s" % ("vin-branch" if lab == "true" else "v-branch"),
-                  "%s: after the two set() calls v == vin*k (v=%s, vin=%s)" % (name, state.get("v"), state.get("vin")),
+        ctx.check(ok, "C11.invariant", "Model.alter/%s" % construct,
+                  "%s: after alter v == vin*k and the supplied value is stored in the representation it was given in (v=%s, vin=%s)" % (
+                      name, state.get("v"), state.get("vin")),
                   "%s: altering leaves v=%s and vin=%s, which violates v == vin*k or does not store the supplied value" % (
                       name, state.get("v"), state.get("vin")), a.W())
+    bad = []
+    try:
+        for kind in ("before-setup", "no-vin"):
+            for attr in ("v", "vin"):
+                rec = run_alter(kind, attr)
+                want = "v" if (kind == "no-vin") else attr
+                if [(r_[2], r_[3]) for r_ in rec] != [(want, value)] or not all(r_[0] == "p" and r_[1] == 7 for r_ in rec):
+                    bad.append("%s object, attr=%r: set calls %s" % (kind, attr, [(r_[2], str(r_[3])) for r_ in rec]))
+        ctx.check(not bad, "C11.invariant", "Model.alter/plain", "without stored input the value is written as given to the addressed element "
+                  "(`vin` falls back to `v` for objects that have none)", "; ".join(bad), a.W())
+    except Unsupported as ex:
+        ctx.undecided("C11.invariant", "Model.alter/plain", "evaluator: %s" % ex, a.W())
+
+    # GroupBase.alter: evaluated with recording member models: every addressed device reaches its own model's alter() with its value
     g = F.method(repo, "GroupBase", "alter", GROUP)
-    ok = False
-    for lp, e in Q.loops(g.fn, "zip($models, $idx, $value)", "($m, $i, $v)"):
-        if Q.has("$m.alter(src, $i, $v, attr=attr)", lp, e):
-            ok = True
-    ctx.check(ok, "C11.invariant", "GroupBase.alter", "delegates to the owning model's alter()",
-              "group alteration no longer goes through Model.alter (vin/v would diverge)", g.W())
+
+    class _Mdl(Fake):
+        def __init__(self, name, log):
+            self.name, self.log = name, log
+
+        def alter(self, src, idx, value, attr="v"):
+            self.log.append((self.name, src, idx, value, attr))
+
+    def run_group(idx, val, attr):
+        log = []
+        owner = {1: _Mdl("A", log), 2: _Mdl("B", log), 3: _Mdl("A", log)}
+
+        class _Grp(Fake):
+            pass
+        stubs = {"self._check_src": lambda *a_: None, "self._check_idx": lambda *a_: None,
+                 "self._1d_vectorize": lambda i: (list(i) if isinstance(i, (list, tuple)) else [i], not isinstance(i, (list, tuple))),
+                 "self.idx2model": lambda ii: [owner[i] for i in ii], "np.integer": int, "np.floating": float, "np.ndarray": list}
+        TinyExec(repo, "GroupBase", GROUP, stubs=stubs).call("alter", _Grp(), "p", idx, val, attr)
+        return log
+    try:
+        bad = []
+        for idx, val, attr, want in (([1, 2, 3], [10.0, 20.0, 30.0], "v", [("A", "p", 1, 10.0, "v"), ("B", "p", 2, 20.0, "v"), ("A", "p", 3, 30.0, "v")]),
+                                     ([2, 1], 5.0, "vin", [("B", "p", 2, 5.0, "vin"), ("A", "p", 1, 5.0, "vin")]),
+                                     (3, 4.0, "v", [("A", "p", 3, 4.0, "v")])):
+            got = run_group(idx, val, attr)
+            if got != want:
+                bad.append("alter(idx=%r, value=%r, attr=%r) reaches %s" % (idx, val, attr, got))
+        ctx.check(not bad, "C11.invariant", "GroupBase.alter", "delegates every addressed device to the owning model's alter() with its own value and attr",
+                  "group alteration does not go through Model.alter device by device (vin/v would diverge): " + "; ".join(bad[:2]), g.W())
+    except Unsupported as ex:
+        ctx.undecided("C11.invariant", "GroupBase.alter", "evaluator: %s" % ex, g.W())
     # sibling rule: the group-level setter reaches the same side effects as Model.set (time constants -> dae.Tf / Teye, Bus.set ->
     # connectivity record): it delegates to the owning model's set(), it does not write the attribute array itself
     gs = F.method(repo, "GroupBase", "set", GROUP)
@@ -216,26 +264,64 @@ def rule_tconst(ctx, repo):
 
 def rule_export(ctx, repo):
     d = F.method(repo, "ModelData", "as_dict", MODELDATA)
-    t = [tn for tn in d.g.nodes() if d.g.data(tn)["kind"] == "test" and "vin is True" in src(d.g.data(tn)["ast"].test)]
-    ok = bool(t) and any(Q.match("out[$n] = $i.vin", d.g.data(n)["ast"]) and d.g.guarded_by(n, t[0], "true")
-                         for n in d.g.nodes() if d.g.data(n)["kind"] == "stmt")
-    ctx.check(ok, "C11.export", "ModelData.as_dict", "vin=True returns the input-base values", "as_dict(vin=True) no longer returns vin", d.W())
-    # the input-base override applies to every exported parameter: its guards mention only vin (not the serializer), and the
-    # serializer (oconvert) is applied to whatever value was selected
-    g_bad = []
-    for n in d.g.nodes():
-        if d.g.data(n)["kind"] == "stmt" and Q.match("out[$n] = $i.vin", d.g.data(n)["ast"]):
-            for tn in d.g.nodes():
-                dd = d.g.data(tn)
-                if dd["kind"] == "test" and d.g.dominates(tn, n) and (d.g.guarded_by(n, tn, "true") or d.g.guarded_by(n, tn, "false")):
-                    c_ = src(dd["ast"].test)
-                    if "oconvert" in c_ or "conv" in c_.split("vin")[0]:
-                        g_bad.append(c_)
-    conv_on_selected = Q.has("out[$n] = np.array([$c($x) for $x in out[$n]])", d.fn)
-    ctx.check(not g_bad and conv_on_selected, "C11.export", "ModelData.as_dict/all-params",
-              "vin override independent of the serializer; oconvert applied to the selected value",
-              "the input-base value is used only for parameters without a serializer (%s): list-valued / converted parameters are "
-              "exported in system base and converted twice when read back" % (g_bad or "oconvert not applied to out[name]"), d.W())
+    # decided by evaluation (engine/tinyexec.py) on a parameter table that covers the kinds of exported object: with / without stored
+    # input, input not stored yet, with / without a serializer (oconvert), not exported
+    from engine.tinyexec import TinyExec, Fake
+    from engine.ordertype import Unsupported
+
+    class _P(Fake):
+        def __init__(self, v, vin="absent", conv=None, export=True):
+            self.v, self.oconvert, self.export = v, conv, export
+            if vin != "absent":
+                self.vin = vin
+
+    def ser(x):
+        return ("ser", x)
+
+    class _MD(Fake):
+        pass
+    md = _MD()
+    md.n = 2
+    from collections import OrderedDict
+    md.params = OrderedDict([("a", _P([1.5, 2.5], [1, 2])), ("b", _P([3.5, 4.5], [3, 4], ser)), ("c", _P([5.5, 6.5])),
+                             ("d", _P([7.5, 8.5], None, ser)), ("e", _P([9.5, 9.5], [9, 9], None, False)), ("f", _P([0.5, 0.25], [5, 2.5]))])
+    stubs = {"np.arange": lambda n_: list(range(n_)), "np.array": lambda x, **k_: list(x), "np.asarray": lambda x, **k_: list(x),
+             "OrderedDict": OrderedDict}
+
+    def reference(vin):
+        out = {"uid": [0, 1]}
+        for nm, p_ in md.params.items():
+            if p_.export is False:
+                continue
+            val = p_.vin if (vin is True and getattr(p_, "vin", None) is not None) else p_.v
+            out[nm] = [ser(x) for x in val] if p_.oconvert is not None else val
+        return out
+    bad1, bad2, und = [], [], None
+    for vin in (True, False):
+        try:
+            got = TinyExec(repo, "ModelData", MODELDATA, stubs=stubs).call("as_dict", md, vin=vin)
+        except Unsupported as ex:
+            und = str(ex)
+            break
+        want = reference(vin)
+        got = {k_: list(v_) for k_, v_ in dict(got).items()} if isinstance(got, dict) else got
+        if not isinstance(got, dict) or set(got) != set(want):
+            bad1.append("as_dict(vin=%s) returns keys %s, expected %s" % (vin, sorted(got) if isinstance(got, dict) else got, sorted(want)))
+            continue
+        for nm in want:
+            if got[nm] != want[nm]:
+                plain = md.params[nm].oconvert is None if nm in md.params else True
+                (bad1 if plain else bad2).append("as_dict(vin=%s)[%r] = %s, expected %s" % (vin, nm, got[nm], want[nm]))
+    if und:
+        ctx.undecided("C11.export", "ModelData.as_dict", "evaluator: %s" % und, d.W())
+        ctx.undecided("C11.export", "ModelData.as_dict/all-params", "evaluator: %s" % und, d.W())
+    else:
+        ctx.check(not bad1, "C11.export", "ModelData.as_dict", "vin=True returns the input-base values where stored, v otherwise; vin=False returns v",
+                  "; ".join(bad1[:3]), d.W())
+        ctx.check(not bad2, "C11.export", "ModelData.as_dict/all-params",
+                  "vin override independent of the serializer; oconvert applied to the selected value",
+                  "parameters with a serializer are exported wrongly (%s): list-valued / converted parameters are exported in system base "
+                  "or converted twice when read back" % "; ".join(bad2[:3]), d.W())
     i = F.method(repo, "ModelData", "__init__", MODELDATA)
     ok = Q.has("self.cache.add_callback('df_in', lambda: self.as_df(vin=True))", i.fn)
     ctx.check(ok, "C11.export", "ModelData.cache.df_in", "cached export view is as_df(vin=True)", "df_in is no longer the input-base view", i.W())
